@@ -105,8 +105,26 @@ def table_or_const(values, min_len=2, max_len=4):
     return st.one_of(v, v, st.lists(v, min_size=min_len, max_size=max_len).map(lambda t: {'table': t}))
 
 
+class LiveValue:
+    """A hyper-parameter callable that ignores its step argument and reads *live* state that the training loop changes
+    between iterations (the documented idiom ``lr=lambda x: optimizer.param_groups[0]['lr']``).  The harness calls
+    ``set_iter(i)`` before the forward pass of iteration i; the value is table[i % len(table)] until the next call."""
+
+    def __init__(self, table):
+        self.table = list(table)
+        self.i = 0
+
+    def set_iter(self, i):
+        self.i = i
+
+    def __call__(self, step=None):
+        return self.table[self.i % len(self.table)]
+
+
 def hp_callable(v):
     """JSON hyper-parameter -> constant or callable evaluated at a step."""
+    if isinstance(v, dict) and 'live' in v:
+        return LiveValue(v['live'])
     if isinstance(v, dict) and 'table' in v:
         t = list(v['table'])
         return lambda step, t=t: t[step % len(t)]
